@@ -317,7 +317,7 @@ func CellList() []Cell {
 		add("attr-const-dq-"+cv.name, `<div title="`+cv.v+`">x</div>`)
 		add("attr-const-sq-"+cv.name, `<div title='`+cv.v+`'>x</div>`)
 		if cv.v != "" && !strings.ContainsAny(cv.v, " \t\n<>") {
-			add("attr-const-unq-"+cv.name, `<div title=`+cv.v+`>x</div>`)
+			add("attr-const-unq-"+cv.name, `<div title=`+cv.v+` >x</div>`)
 		}
 	}
 	add("attr-const-dq-has-sq", `<div title="it's">x</div>`)
